@@ -25,6 +25,8 @@ func c17(c *Ctx) {
 	c17R4(c)
 	c17R5(c)
 	c17R6(c)
+	cachedAuthoritative(c, "C17.R8")
+	itemIndependent(c, "C17.R7", [][3]string{{"pkg/controller/pod", "ReconcilePod.ParsePodNetworksFromAnnotation", "one allocation per requested network"}})
 }
 
 // sliceMutations lists operations in fd that may write through the backing
@@ -562,4 +564,63 @@ func c17R6(c *Ctx) {
 		}
 		c.Check(re == 0, "C17.R6", nm+" is never reassigned", "", vswPkg, "sentinel is effectively constant", fmt.Sprintf("%d assignments", re))
 	}
+}
+
+// cachedAuthoritative: a cached vSwitch (an exhausted one stored by Block
+// included) is the answer until it expires: GetByID asks the cloud only when
+// the cache lookup missed. The lookup's ok result is defined once and never
+// reassigned, and the statement that reaches DescribeVSwitchByID stands under
+// !ok.
+func cachedAuthoritative(c *Ctx, rule string) {
+	p := c.P
+	c.Rule(rule, "SwitchPool.GetByID asks the cloud only on a cache miss: the ok result of the cache lookup is never reassigned and the single-flight / DescribeVSwitchByID statement stands under !ok (so an entry zeroed by Block stays out of service for its ttl)")
+	fn := p.Func(vswPkg, "SwitchPool.GetByID")
+	if fn == nil {
+		c.Unres(rule, "SwitchPool.GetByID", "not found")
+		return
+	}
+	info := fn.Info()
+	var okObj types.Object
+	var lookup *ast.CallExpr
+	var cloud []*ast.CallExpr
+	for _, cs := range p.CallsIn(fn) {
+		if cs.Callee == nil {
+			continue
+		}
+		if cs.Callee.Name() == "Get" && cs.Callee.Pkg() != nil && strings.HasSuffix(cs.Callee.Pkg().Path(), "apimachinery/pkg/util/cache") && cs.Lit == nil {
+			if _, lhs := assignedFromCall(fn, cs.Call); len(lhs) == 2 && lhs[1] != nil {
+				okObj, lookup = lhs[1], cs.Call
+			}
+		}
+		if cs.Callee.Name() == "DescribeVSwitchByID" {
+			cloud = append(cloud, cs.Call)
+		}
+	}
+	if okObj == nil || len(cloud) == 0 {
+		c.Undec(rule, "GetByID: cache lookup and cloud call", p.Pos(fn.Decl), fn.Key(), "v, ok := cache.Get(id) … DescribeVSwitchByID", fmt.Sprintf("lookup=%v cloud calls=%d", okObj != nil, len(cloud)))
+		return
+	}
+	ds := varDefs(fn, okObj)
+	c.Check(len(ds) == 1, rule, "GetByID: the lookup result is not overridden", p.Pos(lookup), fn.Key(), okObj.Name()+" is assigned only by the cache lookup", fmt.Sprintf("%d assignments", len(ds)))
+	for _, call := range cloud {
+		// the statement of the function body proper that contains the call
+		var stmt ast.Stmt
+		for _, n := range pathTo(fn.Decl.Body, call) {
+			if _, isLit := n.(*ast.FuncLit); isLit {
+				break
+			}
+			if s, ok := n.(ast.Stmt); ok {
+				switch s.(type) {
+				case *ast.AssignStmt, *ast.ExprStmt, *ast.ReturnStmt:
+					stmt = s
+				}
+			}
+		}
+		if stmt == nil {
+			c.Undec(rule, "GetByID: cloud call statement", p.Pos(call), fn.Key(), "", "not inside a simple statement")
+			continue
+		}
+		c.Require(rule, "GetByID: the cloud is asked only on a miss", fn, stmt, "!"+okObj.Name(), nil)
+	}
+	_ = info
 }
